@@ -38,7 +38,7 @@ func runC08(c *Ctx) {
 	c08R12(c)
 	c09R1As(c, c.R.Rule("R13", "K13 (= C09.R1) short and long processor replies: at each Process call boundary both directions of a length mismatch are diverted (padded / refused) before the reply is used positionally — a short reply is aligned before the end-to-start marking, not patched afterwards", 6))
 	c08R16As(c, c.R.Rule("R16", "K3 a conditional processor's reply is always merged back: in RunnableProcessor.Process every return lies behind the `cond == nil` edge or behind the merge decision (`len(passthrough) == len(records)`) — no reply shape (surplus results) returns the plugin's or a substitute result list without re-inserting the records that did not match the condition, which would attach results to the wrong records", 1))
-	c08R15As(c, c.R.Rule("R15", "K3 marking a record never changes which records are active: in Batch.setFlagWithErr the split-run propagation overwrites a piece's flag only behind the `Flag != RecordFlagFilter` edge (or adjusts filterCount) — otherwise a later active index of the same call sequence (the next destination ack response) resolves to the wrong record", 1))
+	c08R15As(c, c.R.Rule("R15", "K3 marking a record never changes which records are active: in Batch.setFlagWithErr the split-run propagation overwrites a piece's flag only behind the `Flag != RecordFlagFilter` edge — otherwise a later active index of the same call sequence (the next destination ack response) resolves to the wrong record", 1))
 	c01R5As(c, c.R.Rule("R14", "K3 (= C01.R5) a group is settled in place only when it really has nothing left to process: Worker.doTaskAttempt hands a (sub-)batch to acker.Ack only when no task follows or THAT batch has no active records", 2))
 }
 
@@ -720,16 +720,9 @@ func c08R15As(c *Ctx, r string) {
 			continue
 		}
 		n++
-		adjusts := false
-		for _, fs := range kit.FieldStores(fn, fcF) {
-			if inner.Contains(fs) {
-				adjusts = true
-			}
-		}
-		if adjusts {
-			c.R.Pass(r, "setFlagWithErr: the split-run propagation keeps filterCount in step", c.Pos(st.Pos()), "filterCount adjusted in the propagation loop", true)
-			continue
-		}
+		// (adjusting filterCount instead does not help: the piece still re-enters the active set in the middle of a
+		// marking sequence and shifts the active indices resolved afterwards)
+		_ = inner
 		c.Dominated(r, "setFlagWithErr: the split-run propagation leaves filtered pieces filtered", []ssa.Instruction{st}, notFiltered, "the Flag != RecordFlagFilter edge")
 	}
 	c.R.Check(n >= 1, r, "setFlagWithErr: split-run propagation", c.Pos(fn.Pos()), "found", "no flag store in a nested loop of setFlagWithErr (the propagation over the pieces of a split run) found", true)
